@@ -662,13 +662,13 @@ def handlePool (st : DState) : List String → DState × String
     match n.toNat?, o.toNat? with
     | some n, some o => ({ st with pool := { nFields := n, outputs := o } }, "ok")
     | _, _ => (st, "bad-op")
-  | ["new", h, src, big] =>
-    match h.toNat?, (if src == "-" then some none else src.toNat?.map some) with
-    | some h, some src =>
-      match Pool.step st.pool (.new h src (big == "1")) with
+  | ["new", h, src, buf] =>
+    match h.toNat?, (if src == "-" then some none else src.toNat?.map some), (if buf == "-" then some none else buf.toNat?.map some) with
+    | some h, some src, some buf =>
+      match Pool.step st.pool (.new h src buf) with
       | some p => ({ st with pool := p }, match Pool.lookup p.live h with | some r => poolView r | none => "internal")
       | none => (st, "not-enabled")
-    | _, _ => (st, "bad-op")
+    | _, _, _ => (st, "bad-op")
   | ["set", h, i, v] =>
     match h.toNat?, i.toNat?, unhex v with
     | some h, some i, some v =>
